@@ -64,6 +64,16 @@ impl<'a> ZoneHydrator<'a> {
         }
 
         let columns = self.plan.columns_to_load().await;
+        // Zones returned by the index pruners carry no uid, zones enumerated from the zone metadata
+        // (full scan, SuRF fallback, NOT) do. For a specific event type both kinds belong to the
+        // plan's uid: tag the bare ones so that a mixed candidate list is hydrated completely.
+        if let Some(uid) = self.plan.event_type_uid().await {
+            for zone in candidate_zones.iter_mut() {
+                if zone.uid().is_none() {
+                    zone.set_uid(uid.clone());
+                }
+            }
+        }
         let mut zones_by_uid: std::collections::HashMap<String, Vec<usize>> =
             std::collections::HashMap::new();
         for (idx, zone) in candidate_zones.iter().enumerate() {
